@@ -483,6 +483,60 @@ func ruleSchema(c *report.Ctx, buckets []string, floorKey, floorVal int) {
 		}
 	}
 
+	c.Rule("put-key-uniform", "the writers of a fixed-width-key bucket agree on one key width (a row written with another layout's key is decoded at the wrong offsets by the bucket's readers and is never found by its deleters)", 1)
+	{
+		type ws struct {
+			op bucketOp
+			w  string
+		}
+		per := map[string][]ws{}
+		for _, op := range ops {
+			if !want[op.Bucket] || op.Method != "Put" {
+				continue
+			}
+			for _, k := range op.Keys {
+				if strings.HasPrefix(k, "len:") {
+					per[op.Bucket] = append(per[op.Bucket], ws{op, k})
+				}
+			}
+		}
+		var bs []string
+		for b := range per {
+			bs = append(bs, b)
+		}
+		sort.Strings(bs)
+		for _, b := range bs {
+			cnt := map[string]int{}
+			for _, x := range per[b] {
+				cnt[x.w]++
+			}
+			// majority width = the schema (ties: smaller string, deterministic)
+			major := ""
+			for w, n := range cnt {
+				if major == "" || n > cnt[major] || n == cnt[major] && w < major {
+					major = w
+				}
+			}
+			if b == "nsSyncBucketName" || strings.HasPrefix(b, "GetOrCreateBucket(") {
+				continue // mixed by design: string-named singletons next to 8-byte height keys
+			}
+			bad := false
+			for _, x := range per[b] {
+				if x.w != major {
+					bad = true
+					site := sk(x.op.Fn) + ":" + b + ".Put"
+					if x.op.Ctx != sk(x.op.Fn) {
+						site = x.op.Ctx + "~>" + site
+					}
+					c.Fail(site+"["+x.w+"]", fmt.Sprintf("this writer stores a %s key into bucket %s whose other writers use %s: readers decode the key at the wrong offsets and the row's deleters (which build %s keys) never remove it", x.w, b, major, major), posOf(c, x.op.Site), ascentText(p, x.op)...)
+				}
+			}
+			if !bad {
+				c.OK("bucket:"+b, fmt.Sprintf("%d Put sites, all %s", len(per[b]), major), "")
+			}
+		}
+	}
+
 	c.Rule("no-raw-cross-bucket-copy", "a value read from bucket B' is never stored verbatim into another bucket B (each bucket has its own value layout, txmgr/type.go); it must pass through a conversion function", floorVal)
 	for _, op := range ops {
 		if !want[op.Bucket] || op.Method != "Put" {
